@@ -27,7 +27,7 @@ EXTENDS Integers, Sequences, FiniteSets, TLC, Json
 G == INSTANCE Graph
 
 CONSTANTS Deviations,     \* subset of AllDevs
-          RuleSets,       \* set of records [rules, ops, commute, n, ifs, loops, shadow, clash, wrap]
+          RuleSets,       \* set of records RS(...) below: rule list, host alphabet, bounds and host features
           MaxDepth,       \* nesting depth of If/Loop bodies
           Wide            \* TRUE: both operands of a binary node range over all candidates
 VARIABLES phase, cfg, m, bs, eng, h
@@ -478,7 +478,7 @@ AddNode(op, args) ==
   /\ bs' = [bs EXCEPT !.np = @ + 1]
   /\ UNCHANGED <<phase, cfg, eng, h>>
 OpenIf ==
-  /\ phase = "build" /\ cfg.ifs /\ Depth < MaxDepth /\ PlainCount + 2 <= cfg.n
+  /\ phase = "build" /\ cfg.ifs /\ Depth < MaxDepth /\ Depth < cfg.d /\ PlainCount + 2 <= cfg.n
   /\ LET g == Top.g
          nid == Len(m.nodes) + 1
          tg == Len(m.graphs) + 1
@@ -500,7 +500,7 @@ CloseIf ==
   /\ bs' = [bs EXCEPT !.st = SubSeq(@, 1, Len(@) - 1)]
   /\ UNCHANGED <<phase, cfg, eng, h>>
 OpenLoop(v0) ==
-  /\ phase = "build" /\ cfg.loops /\ ~cfg.wrap /\ Depth < MaxDepth /\ PlainCount + 1 <= cfg.n      \* (initializers cannot live in a function)
+  /\ phase = "build" /\ cfg.loops /\ ~cfg.wrap /\ Depth < MaxDepth /\ Depth < cfg.d /\ PlainCount + 1 <= cfg.n      \* (initializers cannot live in a function)
   /\ LET g == Top.g
          nid == Len(m.nodes) + 1
          lg == Len(m.graphs) + 1
@@ -527,7 +527,9 @@ Applicable(mm, n, r, sw) == MatchV(mm, n, r, sw, {}).ok /\ ~(r = "dbl" /\ mm.gra
 AnyMatch(mm) == \E n \in LiveNodes(mm) : \E i \in 1..Len(RV) : Applicable(mm, n, RV[i][1], RV[i][2])
 Finish ==
   /\ phase = "build" /\ Depth = 0 /\ m.graphs[ROOT].order # <<>>
-  /\ LET outs == SelectSeq([k \in 1..Len(m.graphs[ROOT].order) |-> m.nodes[m.graphs[ROOT].order[k]].out], LAMBDA v : Uses(m, v) = {})
+  /\ \E extra \in {0} \cup (IF cfg.xouts THEN {m.nodes[n].out : n \in {n \in SeqSet(m.graphs[ROOT].order) : Uses(m, m.nodes[n].out) # {}}} ELSE {}) :
+     LET \* graph outputs: every root-level value nobody reads, plus (xouts) possibly one that is also read
+         outs == SelectSeq([k \in 1..Len(m.graphs[ROOT].order) |-> m.nodes[m.graphs[ROOT].order[k]].out], LAMBDA v : Uses(m, v) = {} \/ v = extra)
          inits == SelectSeq(<<ONE, TRIP, CTRUE, OLD>>, LAMBDA v : Uses(m, v) # {})
          m1 == [m EXCEPT !.graphs[ROOT].outs = outs, !.graphs[1].inits = inits]
          m2 == [m1 EXCEPT !.graphs = [g \in 1..Len(@) |-> [@[g] EXCEPT !.known = KnownNames(m1, g)]]]
@@ -729,7 +731,7 @@ FrameOK ==
   /\ \A g \in 1..Len(h.orig.graphs) :
        SelectSeq(m.graphs[g].order, LAMBDA n : n <= Len(h.orig.nodes)) = SelectSeq(h.orig.graphs[g].order, LAMBDA n : InOrder(m, n))
 \* every step of the engine leaves a well-formed graph that computes the same function
-StepWF == phase \in {"engine", "post", "cleanup"} /\ F.stage \in {"try", "desc"} => WFids(m)
+StepWF == (phase = "engine" /\ eng.dirty) \/ phase = "cleanup" => WFids(m)      \* after every Splice, after the post passes
 StepEval == phase = "engine" /\ eng.dirty => EvalModel(m) = h.ref
 Terminates == eng.count < MAXCOUNT
 DoneOK == /\ ~h.raised
@@ -742,7 +744,7 @@ Holds == /\ StepWF /\ StepEval /\ Terminates
 \* design run (Deviations = {}): the property
 PropertyHolds == eng.devs = {} => Holds
 \* implementation-model run: everything a deviation does not explain still satisfies the property
-DeviationsExplain == h.why = {} => Holds
+DeviationsExplain == eng.devs # {} /\ h.why = {} => Holds
 
 \* vacuity witnesses (each must be VIOLATED)
 NeverRewrites == eng.count = 0
@@ -776,29 +778,52 @@ Emit == phase = "done" /\ eng.devs = Deviations =>
 
 -----------------------------------------------------------------------------
 (* rule sets *)
-RS(rules, ops, commute, n, ifs, loops, shadow, clash, wrap) ==
-  [rules |-> rules, ops |-> ops, commute |-> commute, n |-> n, ifs |-> ifs, loops |-> loops, shadow |-> shadow, clash |-> clash, wrap |-> wrap]
-\*                rules                 host steps                commute n  ifs   loops shadow clash wrap
-S_negneg   == {RS(<<"negneg">>,         {"Neg"},                  FALSE, 3, TRUE, FALSE, FALSE, FALSE, FALSE),
-               RS(<<"negneg">>,         {"Neg"},                  FALSE, 2, FALSE, TRUE, FALSE, FALSE, FALSE),
-               RS(<<"negneg">>,         {"Neg"},                  FALSE, 3, TRUE, FALSE, FALSE, FALSE, TRUE)}
-S_keep     == {RS(<<"keep">>,           {"Neg"},                  FALSE, 3, TRUE, FALSE, FALSE, FALSE, FALSE)}
-S_relurelu == {RS(<<"relurelu">>,       {"Relu"},                 FALSE, 3, TRUE, FALSE, FALSE, FALSE, FALSE)}
-S_mul1     == {RS(<<"mul1">>,           {"Mul1", "Mul1c"},        c, 2, TRUE, FALSE, FALSE, FALSE, FALSE) : c \in BOOLEAN}
-S_subneg   == {RS(<<"subneg">>,         {"Sub"},                  FALSE, 2, TRUE, TRUE, sh, FALSE, FALSE) : sh \in BOOLEAN}
-              \cup {RS(<<"subneg">>,   {"Sub"},                  FALSE, 2, TRUE, FALSE, TRUE, FALSE, TRUE)}
-S_addsum   == {RS(<<"addsum">>,         {"Add"},                  c, 2, TRUE, FALSE, FALSE, FALSE, FALSE) : c \in BOOLEAN}
-S_chain    == {RS(rs,                   {"Sub", "Add"},           FALSE, 2, TRUE, FALSE, FALSE, FALSE, FALSE) : rs \in {<<"subneg", "addsum">>, <<"addsum", "subneg">>}}
-S_subnegneg == {RS(<<"subneg", "negneg">>, {"Sub", "Neg"},        FALSE, 2, TRUE, FALSE, FALSE, FALSE, FALSE)}
-S_dbl      == {RS(<<"dbl">>,            {"Add", "Mul3"},          FALSE, 2, TRUE, FALSE, FALSE, cl, FALSE) : cl \in BOOLEAN}
-S_dblw     == {RS(<<"dbl", "subneg">>,  {"Add", "Sub"},           FALSE, 2, TRUE, FALSE, FALSE, FALSE, TRUE)}
-S_dblsum   == {RS(rs,                   {"Add"},                  FALSE, 2, TRUE, FALSE, FALSE, FALSE, FALSE) : rs \in {<<"dbl", "addsum">>, <<"addsum", "dbl">>}}
-S_fn       == {RS(<<"fn">>,             {"I_fn", "I_fnc", "Neg"}, c, 2, TRUE, FALSE, FALSE, FALSE, w) : c \in BOOLEAN, w \in BOOLEAN}
-S_negfn    == {RS(<<"negneg", "fn">>,   {"I_fn", "Neg"},          FALSE, 2, FALSE, FALSE, FALSE, FALSE, FALSE)}
-S_pair     == {RS(<<"pair">>,           {"I_pair", "I_pairr", "I_pairc", "Relu"}, c, 2, TRUE, FALSE, FALSE, FALSE, FALSE) : c \in BOOLEAN}
-QuickSets == S_negneg \cup S_keep \cup S_relurelu \cup S_mul1 \cup S_subneg \cup S_addsum \cup S_chain \cup S_subnegneg
-             \cup S_dbl \cup S_dblw \cup S_dblsum \cup S_fn \cup S_negfn \cup S_pair
-VacuitySets == S_subneg \cup S_dbl \cup S_pair
+RS(rules, ops, commute, n, d, ifs, loops, shadow, clash, wrap, xouts) ==
+  [rules |-> rules, ops |-> ops, commute |-> commute, n |-> n, d |-> d, ifs |-> ifs, loops |-> loops, shadow |-> shadow, clash |-> clash,
+   wrap |-> wrap, xouts |-> xouts]
+T == TRUE
+X == FALSE
+\* quick            rules                  host steps                          commute n d ifs loops shadow clash wrap xouts
+Q_negneg   == {RS(<<"negneg">>,            {"Neg"},                            X, 4, 1, T, X, X, X, X, T),
+               RS(<<"negneg">>,            {"Neg"},                            X, 3, 1, X, T, X, X, X, X),
+               RS(<<"negneg">>,            {"Neg"},                            X, 3, 1, T, X, X, X, T, X)}
+Q_keep     == {RS(<<"keep">>,              {"Neg"},                            X, 4, 1, T, X, X, X, X, T),
+               RS(<<"keep", "negneg">>,    {"Neg"},                            X, 3, 1, X, X, X, X, X, T)}
+Q_relurelu == {RS(<<"relurelu">>,          {"Relu"},                           X, 4, 1, T, X, X, X, X, X)}
+Q_mul1     == {RS(<<"mul1">>,              {"Mul1", "Mul1c", "Neg"},           c, 3, 1, T, X, X, X, X, X) : c \in BOOLEAN}
+Q_subneg   == {RS(<<"subneg">>,            {"Sub"},                            X, 2, 1, T, T, X, X, w, X) : w \in BOOLEAN}
+              \cup {RS(<<"subneg">>,       {"Sub", "Relu"},                    X, 3, 1, T, X, T, X, X, X)}
+Q_addsum   == {RS(<<"addsum">>,            {"Add"},                            c, 2, 1, T, X, X, X, X, X) : c \in BOOLEAN}
+Q_chain    == {RS(rs,                      {"Sub", "Add"},                     X, 2, 1, T, X, X, X, X, X) : rs \in {<<"subneg", "addsum">>, <<"addsum", "subneg">>}}
+              \cup {RS(<<"subneg", "negneg">>, {"Sub", "Neg"},                 X, 2, 1, T, X, X, X, X, X)}
+Q_dbl      == {RS(<<"dbl">>,               {"Add", "Mul3"},                    X, 2, 1, T, X, X, cl, X, X) : cl \in BOOLEAN}
+              \cup {RS(<<"dbl", "subneg">>, {"Add", "Sub"},                    X, 2, 1, T, X, X, X, T, X)}
+              \cup {RS(rs,                 {"Add"},                            X, 2, 1, T, X, X, X, X, X) : rs \in {<<"dbl", "addsum">>, <<"addsum", "dbl">>}}
+Q_fn       == {RS(<<"fn">>,                {"I_fn", "I_fnc", "Neg"},           c, 2, 1, T, X, X, X, w, T) : c \in BOOLEAN, w \in BOOLEAN}
+              \cup {RS(<<"fn">>,           {"Neg", "Add"},                     c, 2, 1, X, X, X, X, X, X) : c \in BOOLEAN}
+              \cup {RS(<<"negneg", "fn">>, {"I_fn", "Neg"},                    X, 2, 1, X, X, X, X, X, X)}
+Q_pair     == {RS(<<"pair">>,              {"I_pair", "I_pairr", "I_pairc", "Relu"}, c, 2, 1, T, X, X, X, X, X) : c \in BOOLEAN}
+              \cup {RS(<<"pair">>,         {"I_pair", "Relu"},                 X, 2, 1, T, X, T, X, T, X)}
+QuickSets == Q_negneg \cup Q_keep \cup Q_relurelu \cup Q_mul1 \cup Q_subneg \cup Q_addsum \cup Q_chain \cup Q_dbl \cup Q_fn \cup Q_pair
+\* thorough: one more step, both operands free, depth 2 for the small alphabets
+T_negneg   == {RS(<<"negneg">>,            {"Neg"},                            X, 5, 2, T, T, X, X, X, T),
+               RS(<<"negneg">>,            {"Neg", "Relu"},                    X, 4, 1, T, X, X, X, T, X)}
+T_keep     == {RS(rs,                      {"Neg"},                            X, 4, 2, T, T, X, X, X, T) : rs \in {<<"keep">>, <<"keep", "negneg">>, <<"negneg", "keep">>}}
+T_relurelu == {RS(<<"relurelu">>,          {"Relu", "Neg"},                    X, 4, 2, T, T, X, X, X, T)}
+T_mul1     == {RS(<<"mul1">>,              {"Mul1", "Mul1c", "Neg"},           c, 3, 1, T, T, X, X, X, X) : c \in BOOLEAN}
+T_subneg   == {RS(<<"subneg">>,            {"Sub", "Relu"},                    X, 3, 2, T, T, sh, X, w, X) : sh \in BOOLEAN, w \in BOOLEAN}
+T_chain    == {RS(rs,                      {"Sub", "Add", "Neg"},              c, 3, 1, T, X, X, X, X, X) :
+                    rs \in {<<"subneg", "addsum">>, <<"addsum", "subneg">>, <<"subneg", "negneg">>, <<"negneg", "subneg", "addsum">>}, c \in BOOLEAN}
+T_dbl      == {RS(rs,                      {"Add", "Mul3", "Sub"},             X, 3, 1, T, T, X, cl, X, X) : rs \in {<<"dbl">>, <<"dbl", "addsum">>, <<"addsum", "dbl">>, <<"dbl", "subneg">>}, cl \in BOOLEAN}
+              \cup {RS(<<"dbl", "subneg">>, {"Add", "Sub"},                    X, 3, 1, T, X, X, X, T, X)}
+T_fn       == {RS(<<"fn">>,                {"I_fn", "I_fnc", "Neg", "Add"},    c, 3, 1, T, T, X, X, w, T) : c \in BOOLEAN, w \in BOOLEAN}
+              \cup {RS(rs,                 {"I_fn", "I_fnc", "Neg"},           c, 3, 1, T, X, X, X, X, X) : rs \in {<<"negneg", "fn">>, <<"fn", "negneg">>}, c \in BOOLEAN}
+T_pair     == {RS(<<"pair">>,              {"I_pair", "I_pairr", "I_pairc", "Relu", "Sub", "Add"}, c, 3, 1, T, T, sh, X, X, X) : c \in BOOLEAN, sh \in BOOLEAN}
+              \cup {RS(<<"pair">>,         {"I_pair", "I_pairc", "Relu"},      X, 3, 1, T, X, X, X, T, X)}
+              \cup {RS(<<"pair", "subneg">>, {"I_pair", "I_pairc", "Sub"},     X, 2, 1, T, X, X, X, X, X)}
+ThoroughSets == T_negneg \cup T_keep \cup T_relurelu \cup T_mul1 \cup T_subneg \cup T_chain \cup T_dbl \cup T_fn \cup T_pair
+VacuitySets == {RS(<<"subneg">>, {"Sub"}, X, 2, 1, T, X, X, X, X, X), RS(<<"dbl">>, {"Add"}, X, 2, 1, X, X, X, X, X, X),
+                RS(<<"relurelu">>, {"Relu"}, X, 3, 1, X, X, X, X, X, X), RS(<<"pair">>, {"I_pairc"}, X, 1, 1, X, X, X, X, X, X)}
 NoDevs == {}
 RealDevs == AllDevs
 =============================================================================
